@@ -110,7 +110,7 @@ def tlc_generate(tier, seed, wd, light=False):
     r1 = common.run_tlc("GrammarGen.tla", cfg % (exh, "SourceFile"), os.path.join(wd, "gen-exh"), workers=8, timeout=1800,
                         coverage=False, env={"TAPES": "", "SEEDS": ""})
     common.tlc_must(r1, "GrammarGen exhaustive")
-    exh_out = [x["out"] for x in r1.records]
+    exh_out = sorted(x["out"] for x in r1.records)          # TLC's workers emit in scheduling order
     rng = random.Random("%d/tapes" % seed)
     ntapes = 1500 if quick else 12000
     tapes = [{"tape": [rng.randrange(100000) for _ in range(211)], "max": rng.choice([6, 9, 12, 16, 22, 30, 40, 55, 70, 90])}
@@ -133,10 +133,11 @@ def tlc_generate(tier, seed, wd, light=False):
     cb = 11 if quick else 12
     cfg3 = ('SPECIFICATION Spec\nCONSTANTS\n  Reading = "strict"\n  MaxTokens = %d\n  Start = "SourceFile"\n  Collapse = {}\n'
             'VIEW StackView\nINVARIANT EmitContext\nCHECK_DEADLOCK FALSE\n' % cb)
-    r3 = common.run_tlc("GrammarGen.tla", cfg3, os.path.join(wd, "gen-ctx"), workers=8, timeout=1800, env={"TAPES": "", "SEEDS": ""})
+    # one worker: with several, which behaviour represents a view class depends on scheduling
+    r3 = common.run_tlc("GrammarGen.tla", cfg3, os.path.join(wd, "gen-ctx"), workers=1, timeout=1800, env={"TAPES": "", "SEEDS": ""})
     common.tlc_must(r3, "GrammarGen contexts")
     sp = os.path.join(wd, "seeds.json")
-    json.dump(r3.records, open(sp, "w"))
+    json.dump(sorted(r3.records, key=lambda x: json.dumps(x, sort_keys=True)), open(sp, "w"))
     cfg4 = ('SPECIFICATION Spec\nCONSTANTS\n  Reading = "strict"\n  MaxTokens = 100000\n  Start = "SourceFile"\n  Collapse = {"*"}\n'
             'INVARIANT EmitSentence\nCHECK_DEADLOCK FALSE\n')
     r4 = common.run_tlc("GrammarGen.tla", cfg4, os.path.join(wd, "gen-comp"), workers=8, timeout=1800, env={"TAPES": "", "SEEDS": sp})
